@@ -199,7 +199,16 @@ func (t *Term) write(sb *strings.Builder) {
 		if len(pats) > 0 {
 			for _, p := range pats {
 				sb.WriteString(" :pattern (")
-				p.write(sb)
+				if p.Op == "mpat" {
+					for i, q := range p.Args {
+						if i > 0 {
+							sb.WriteByte(' ')
+						}
+						q.write(sb)
+					}
+				} else {
+					p.write(sb)
+				}
 				sb.WriteString(")")
 			}
 			sb.WriteString(")")
@@ -504,6 +513,79 @@ func Forall(bound []*Term, body *Term, pats ...*Term) *Term {
 		return body
 	}
 	return &Term{Op: "forall", S: BoolSort, Bound: bound, Args: append([]*Term{body}, pats...)}
+}
+
+// flattenForall merges `forall j :: G ==> (forall x :: B, pattern P)` into one quantifier over
+// (j, x) with the multi-pattern (P, T_j...) where T_j is a small select/app term of G or B that
+// mentions j but no inner variable: nested quantifiers without a pattern on the outer one are
+// not instantiated reliably by E-matching.
+func flattenForall(bound []*Term, body *Term) *Term {
+	guard := True
+	inner := body
+	if body.Op == "=>" {
+		guard, inner = body.Args[0], body.Args[1]
+	}
+	if inner.Op != "forall" || len(inner.Args) != 2 {
+		return Forall(bound, body)
+	}
+	innerNames := map[string]bool{}
+	for _, b := range inner.Bound {
+		innerNames[b.Name] = true
+	}
+	pats := []*Term{}
+	if inner.Args[1].Op == "mpat" {
+		pats = append(pats, inner.Args[1].Args...)
+	} else {
+		pats = append(pats, inner.Args[1])
+	}
+	for _, b := range bound {
+		var best *Term
+		bestSize := 1 << 30
+		var rec func(t *Term) (hasB, hasInner bool, size int)
+		memo := map[*Term][3]int{}
+		rec = func(t *Term) (bool, bool, int) {
+			if m, ok := memo[t]; ok {
+				return m[0] == 1, m[1] == 1, m[2]
+			}
+			hb, hi, sz := false, false, 1
+			if t.Op == "var" {
+				if t.Name == b.Name {
+					hb = true
+				}
+				if innerNames[t.Name] {
+					hi = true
+				}
+			}
+			if t.Op == "forall" || t.Op == "exists" {
+				hi = true // do not pick terms under further binders
+			}
+			for _, a := range t.Args {
+				x, y, z := rec(a)
+				hb = hb || x
+				hi = hi || y
+				sz += z
+			}
+			if hb && !hi && (t.Op == "select" || t.Op == "app") && sz < bestSize {
+				best, bestSize = t, sz
+			}
+			bi := func(v bool) int {
+				if v {
+					return 1
+				}
+				return 0
+			}
+			memo[t] = [3]int{bi(hb), bi(hi), sz}
+			return hb, hi, sz
+		}
+		rec(guard)
+		rec(inner.Args[0])
+		if best == nil {
+			return Forall(bound, body)
+		}
+		pats = append(pats, best)
+	}
+	all := append(append([]*Term{}, bound...), inner.Bound...)
+	return Forall(all, Implies(guard, inner.Args[0]), &Term{Op: "mpat", S: BoolSort, Args: pats})
 }
 
 func Exists(bound []*Term, body *Term) *Term {
